@@ -166,6 +166,8 @@ def mon_C02(run):
         n = min(final_max, 8)
         if probe_results[:n] != ["ok"] * n:
             bad.append((last, f"capacity lost: after everything was returned only {probe_results[:n].count('ok')} of max_size {final_max} objects can be had (zero-wait gets gave {probe_results})"))
+    if not bad:
+        bad = take_rules(run)
     return bad[:1]
 
 
@@ -426,6 +428,51 @@ def mon_C03(run):
     return bad[:1]
 
 
+def take_rules(run):
+    """Object::take run alone: size and users drop by one; the slot is freed exactly when the
+    object was not a surplus one (size <= max_size)"""
+    bad = []
+    rows = run.rows
+    for k, row in enumerate(rows):
+        if row is None or not row["action"].startswith("start take") or k == 0 or rows[k - 1] is None:
+            continue
+        i = row["op"]
+        j = k + 1
+        solo = True
+        while j < len(rows) and rows[j] is not None:
+            a = rows[j]["action"].split()
+            if a[0] != "step" or int(a[1]) != i:
+                solo = False
+                break
+            if rows[j]["obs"]["lbl"] == "done":
+                break
+            j += 1
+        if not solo or j >= len(rows) or rows[j] is None or rows[j]["obs"]["lbl"] != "done":
+            continue
+        b, a_ = rows[k - 1]["obs"], rows[j]["obs"]
+        if b["size"] == "?" or a_["size"] == "?":
+            continue
+        oid = run.ops[i]["obj"]
+        if int(b["size"]) - int(a_["size"]) != 1:
+            bad.append((rows[j]["k"], f"take of object {oid}: size went {b['size']} -> {a_['size']}"))
+        if int(b["users"]) - int(a_["users"]) != 1:
+            bad.append((rows[j]["k"], f"take of object {oid}: users went {b['users']} -> {a_['users']}"))
+        if int(b["size"]) <= int(b["max"]) and b["closed"] == "0":
+            woken_new = len(parse_list(a_["woken"]) or []) - len(parse_list(b["woken"]) or [])
+            if int(a_["permits"]) + woken_new - int(b["permits"]) != 1:
+                bad.append((rows[j]["k"], f"take of object {oid} did not free its slot: permits {b['permits']} -> {a_['permits']}, newly woken {woken_new}"))
+        if int(b["size"]) > int(b["max"]) and b["closed"] == "0":
+            # a surplus object (the pool was shrunk below its size): taking it frees no slot
+            woken_new = len(parse_list(a_["woken"]) or []) - len(parse_list(b["woken"]) or [])
+            if int(a_["permits"]) + woken_new - int(b["permits"]) != 0:
+                bad.append((rows[j]["k"], f"take of surplus object {oid} (size {b['size']} > max_size {b['max']}) released a slot: permits {b['permits']} -> {a_['permits']}, newly woken {woken_new}"))
+        if oid in (parse_list(a_["live"]) or []):
+            bad.append((rows[j]["k"], f"taken object {oid} still counted as the pool's"))
+        if bad:
+            return bad[:1]
+    return bad[:1]
+
+
 def mon_C09(run):
     """retain exact; take hands over / shrinks / frees the slot; detach exactly once for
     every object the live pool lets go of, never for one that stays"""
@@ -486,45 +533,7 @@ def mon_C09(run):
         prev = row
         if bad:
             return bad[:1]
-    # take: solo segments
-    rows = run.rows
-    for k, row in enumerate(rows):
-        if row is None or not row["action"].startswith("start take") or k == 0 or rows[k - 1] is None:
-            continue
-        i = row["op"]
-        j = k + 1
-        solo = True
-        while j < len(rows) and rows[j] is not None:
-            a = rows[j]["action"].split()
-            if a[0] != "step" or int(a[1]) != i:
-                solo = False
-                break
-            if rows[j]["obs"]["lbl"] == "done":
-                break
-            j += 1
-        if not solo or j >= len(rows) or rows[j] is None or rows[j]["obs"]["lbl"] != "done":
-            continue
-        b, a_ = rows[k - 1]["obs"], rows[j]["obs"]
-        if b["size"] == "?" or a_["size"] == "?":
-            continue
-        oid = run.ops[i]["obj"]
-        if int(b["size"]) - int(a_["size"]) != 1:
-            bad.append((rows[j]["k"], f"take of object {oid}: size went {b['size']} -> {a_['size']}"))
-        if int(b["users"]) - int(a_["users"]) != 1:
-            bad.append((rows[j]["k"], f"take of object {oid}: users went {b['users']} -> {a_['users']}"))
-        if int(b["size"]) <= int(b["max"]) and b["closed"] == "0":
-            woken_new = len(parse_list(a_["woken"]) or []) - len(parse_list(b["woken"]) or [])
-            if int(a_["permits"]) + woken_new - int(b["permits"]) != 1:
-                bad.append((rows[j]["k"], f"take of object {oid} did not free its slot: permits {b['permits']} -> {a_['permits']}, newly woken {woken_new}"))
-        if int(b["size"]) > int(b["max"]) and b["closed"] == "0":
-            # a surplus object (the pool was shrunk below its size): taking it frees no slot
-            woken_new = len(parse_list(a_["woken"]) or []) - len(parse_list(b["woken"]) or [])
-            if int(a_["permits"]) + woken_new - int(b["permits"]) != 0:
-                bad.append((rows[j]["k"], f"take of surplus object {oid} (size {b['size']} > max_size {b['max']}) released a slot: permits {b['permits']} -> {a_['permits']}, newly woken {woken_new}"))
-        if oid in (parse_list(a_["live"]) or []):
-            bad.append((rows[j]["k"], f"taken object {oid} still counted as the pool's"))
-        if bad:
-            return bad[:1]
+    return take_rules(run)
     return bad[:1]
 
 
@@ -1447,6 +1456,8 @@ def mon_C04(run):
             S = st.setdefault(g, {"state": "idle", "cur": None, "m0": None, "expect": 0, "ocs": [], "fail": None})
             def err(msg):
                 bad.append((k, f"get #{g}: {msg} (event {e}, state {S['state']})"))
+            if name in ("pre_recycle", "recycle", "post_recycle", "create", "post_create"):
+                S["slot"] = True
             if name in ("pre_recycle", "recycle", "post_recycle"):
                 kk = int(args[1])
                 obj = args[2]
@@ -1513,6 +1524,11 @@ def mon_C04(run):
                     err("PostCreateHook error without a failed post_create hook whose object was discarded")
                 if r == "timeout_recycle":
                     err("Timeout(Recycle) returned")
+                if r == "timeout_wait" and S.get("slot"):
+                    err("Timeout(Wait) returned by a get that had already obtained its slot (a create / recycle was under way)")
+                if r == "timeout_create" and not (S["state"] == "creating" and S["fail"] and S["fail"][0] == "create" and S["fail"][1] in ("pending", "deadline")):
+                    if not (S["state"] == "creating"):
+                        err("Timeout(Create) returned although Manager::create was not the call that timed out")
                 if r not in ("ok", "backend", "post_create_hook", "timeout_wait", "timeout_create", "closed", "no_runtime", "cancelled", "panicked"):
                     err("undocumented result")
                 if r != "ok" and S["state"] in ("recycling", "postcreate", "detached"):
